@@ -25,5 +25,6 @@ CONSTANT SimDepth
 EmitSim == TLCGet("level") # SimDepth \/ PrintT("SCHEDULE " \o ToJson(Schedule))
 
 (* weakened instances: print the schedule that breaks safety, then report the violation *)
+EmitAttackM == (Safety /\ MatchSound) \/ (PrintT("ATTACK " \o ToJson(ScheduleNoState)) /\ FALSE)
 EmitAttack == Safety \/ (PrintT("ATTACK " \o ToJson(ScheduleNoState)) /\ FALSE)
 =============================================================================
